@@ -133,3 +133,21 @@ Proof.
   apply Bool.eqb_prop in H1. apply Bool.eqb_prop in H2. apply Bool.eqb_prop in H3.
   rewrite P3, H3, P2, H2, P1, H1. rewrite !orb_true_iff, !N.eqb_eq. tauto.
 Qed.
+
+(* ---- historical: the predicate of the pinned tree BEFORE the repair (fix: commit 85d6770) ------------ *)
+Definition is_straight_unrepaired (ws : list N) : bool :=
+  let rank_bits := or_rank_bits ws in
+  (trailing_zeros 32 rank_bits + leading_zeros 32 rank_bits =? FIVE_STRAIGHT_PADDING)
+  || (rank_bits =? FIVE_WHEEL_OR_BITS).
+
+(* As Ks Qs Ts Ah: a pair of aces whose ranks span five places was reported as a straight *)
+Lemma unrepaired_refuted :
+  let ws := [layout 12 3; layout 11 3; layout 10 3; layout 8 3; layout 12 2] in
+  Hand5 ws /\ is_straight_unrepaired ws = true /\ is_straight_ranks (map rank_of_word ws) = false /\
+  is_straight ws = false.
+Proof.
+  cbv zeta. split; [|repeat split; vm_compute; reflexivity].
+  repeat split; [| apply nodupb_NoDup; vm_compute; reflexivity].
+  apply Forall_forall. intros w Hw. apply real_cardb_spec.
+  cbn [In] in Hw. repeat (destruct Hw as [<-|Hw]; [vm_compute; reflexivity|]). contradiction.
+Qed.
